@@ -762,6 +762,14 @@ func (fv *FuncVC) convert(v *Val, to types.Type, pos token.Pos) *Val {
 		if c, cok := constOf(v); cok && ok && c.Cmp(lo) >= 0 && c.Cmp(hi) <= 0 {
 			return &Val{T: v.T, Typ: to}
 		}
+		if ok && fok {
+			// same-width (or nearly) conversion: the operand is at most one period away from the target
+			// range, so a single conditional wrap is exact and avoids (mod x 2^64)
+			size := new(big.Int).Add(new(big.Int).Sub(hi, lo), big.NewInt(1))
+			if fhi.Cmp(new(big.Int).Add(hi, size)) <= 0 && flo.Cmp(new(big.Int).Sub(lo, size)) >= 0 {
+				return &Val{T: fv.name("cv", "Int", wrapInt(v.T, to, "add")), Typ: to}
+			}
+		}
 		return &Val{T: fv.name("cv", "Int", wrapInt(v.T, to, "mod")), Typ: to}
 	case isFloat(to) && from != nil && isInteger(from):
 		return &Val{T: "(to_real " + v.T + ")", Typ: to}
